@@ -52,7 +52,7 @@ ASSUMPTIONS = [
     "budget or the number of projects is edited afterwards, the limits are only compared between the two readers (stale entry vs live "
     "attribute is not decided by the statement); removing a project also removes its entry of the metadata table",
 ]
-TRUSTED = ["Python csv reader/writer (quoting layer)", "natsort (row order of the written file)", "str(mpq)/mpq(str) number codec",
+TRUSTED = ["CPython 3.12 csv/io.StringIO semantics as modelled in PabuModel/Csv.lean (diffed against the real module by C11_csv.py)", "natsort (row order of the written file)", "str(mpq)/mpq(str) number codec",
            "the model reads numbers of the forms -?digits, -?digits.digits, -?digits/digits only"]
 
 LIMIT_KEYS = ["min_length", "max_length", "min_sum_cost", "max_sum_cost", "min_points", "max_points", "min_sum_points", "max_sum_points"]
@@ -1650,6 +1650,9 @@ def run(ctx):
         corpus_case(ctx, path, lines, pend)
     t_corpus = ctx.elapsed()
     compare_with_model(ctx, lines, pend)
+    from . import C11_csv  # the text layer (csv reader/writer as pabulib.py configures them) against PabuModel/Csv.lean
+
+    C11_csv.run_stream(ctx)
     ctx.extra["seconds"] = {"generated_streams": round(t_gen, 1), "corpus_library": round(t_corpus - t_gen, 1), "model_and_diff": round(ctx.elapsed() - t_corpus, 1)}
 
 
@@ -1698,6 +1701,10 @@ def replay(payload):
         if res[0]:
             return False, "still failing: " + res[0][1]
         return True, "the file written after the edits describes the election as it is now"
+    elif stream == "csv_rows":
+        from . import C11_csv
+
+        return C11_csv.replay(payload)
     else:
         return True, "nothing to replay (no concrete failing input in this file): " + str(payload.get("what"))
     if ctx.violations:
